@@ -47,7 +47,7 @@ FaultyOk(sid, kind, code) ==
               \* the reset is reported: the receive side never looks cleanly finished
               /\ LET rv == SelectSeq(rs, LAMBDA r : r.api \in RecvApis) IN
                  rv # <<>> /\ rv[Len(rv)].k = "remote_terminate" /\ ~(\E i \in DOMAIN rv : rv[i].k = "none")
-         [] kind = "stop" -> \A i \in DOMAIN errs : errs[i].k = "remote_terminate" /\ errs[i].code = code /\ errs[i].api \in SendApis
+         [] kind \in {"stop", "stoptrl"} -> \A i \in DOMAIN errs : errs[i].k = "remote_terminate" /\ errs[i].code = code /\ errs[i].api \in SendApis
          [] kind = "malformed" /\ role = "server" ->
               /\ Len(rs) = 1 /\ rs[1].k = "stream_err" /\ rs[1].code = H3_MESSAGE_ERROR
               \* the peer is told: the response side is reset with the code, it does not end as a clean (and empty) response
